@@ -1,11 +1,104 @@
-import PyTrie.Model.Basic
-/-! Line-protocol front end for the `smt.*` commands (stub: to be filled in). -/
+import PyTrie.Model.Smt
+import PyTrie.Model.Keccak
+/-! Line-protocol front end for the sparse Merkle tree and its streamed proof (`smt.*`). -/
 namespace PyTrie.SmtDrv
+open PyTrie.Smt PyTrie.Bin
 
 structure St where
-  dummy : Unit := ()
-  deriving Inhabited
+  trees : Array Tree := #[]
+  proofs : Array Proof := #[]
 
-def step (st : St) (_cmd : String) (_args : List String) : St × String := (st, "bad-op")
+instance : Inhabited St := ⟨{}⟩
+
+def joinOr (l : List String) (sep : String) : String := if l.isEmpty then "-" else sep.intercalate l
+
+def hashes (l : List Hash) : String := joinOr (l.map toHex) ","
+
+def parseHashes (s : String) : Option (List Hash) :=
+  if s = "-" then some [] else (s.splitOn ",").mapM ofHex
+
+/-- canonical view of a write log as a dict: last write per key wins, sorted by key -/
+def dictOf (db : Db) : List (Hash × Bytes) :=
+  let ded := db.foldl (fun acc e => if acc.any (fun x => x.1 == e.1) then acc else acc ++ [e]) []
+  (ded.toArray.qsort (fun a b => toHex a.1 < toHex b.1)).toList
+
+def step (st : St) (cmd : String) (args : List String) : St × String :=
+  let bad := (st, "bad-op")
+  let tree (s : String) : Option Tree := s.toNat?.bind fun i => st.trees[i]?
+  match cmd, args with
+  | "reset", [] => ({}, "ok")
+  | "new", [ks, d] =>
+    match ks.toNat?, ofHex d with
+    | some ks, some d => ({ st with trees := st.trees.push (Smt.init keccak (8 * ks) d) }, toString st.trees.size)
+    | _, _ => bad
+  | "fromdb", [i, r] =>
+    match tree i, ofHex r with
+    | some t, some r => ({ st with trees := st.trees.push { t with root := r } }, toString st.trees.size)
+    | _, _ => bad
+  | "set", [i, k, v] =>
+    match i.toNat?, ofHex k, ofHex v with
+    | some i, some k, some v =>
+      match st.trees[i]? with
+      | none => bad
+      | some t =>
+        match Smt.set keccak t (toBits k) v with
+        | some (t', ups) => ({ st with trees := st.trees.set! i t' }, hashes ups)
+        | none => (st, "exn KeyError")
+    | _, _, _ => bad
+  | "del", [i, k] =>
+    match i.toNat?, ofHex k with
+    | some i, some k =>
+      match st.trees[i]? with
+      | none => bad
+      | some t =>
+        match Smt.delete keccak t (toBits k) with
+        | some (t', ups) => ({ st with trees := st.trees.set! i t' }, hashes ups)
+        | none => (st, "exn KeyError")
+    | _, _ => bad
+  | "get", [i, k] =>
+    match tree i, ofHex k with
+    | some t, some k => (st, match Smt.get t (toBits k) with | .ok v => s!"v {toHex v}" | .error _ => "exn KeyError")
+    | _, _ => bad
+  | "branch", [i, k] =>
+    match tree i, ofHex k with
+    | some t, some k => (st, match Smt.branch t (toBits k) with | .ok b => hashes b | .error _ => "exn KeyError")
+    | _, _ => bad
+  | "exists", [i, k] =>
+    match tree i, ofHex k with
+    | some t, some k => (st, if Smt.exists_ t (toBits k) then "True" else "False")
+    | _, _ => bad
+  | "root", [i] => match tree i with | some t => (st, toHex t.root) | none => bad
+  | "db", [i] =>
+    match tree i with
+    | some t => (st, joinOr ((dictOf t.db).map fun e => s!"{toHex e.1}:{toHex e.2}") ",")
+    | none => bad
+  | "dbsize", [i] => match tree i with | some t => (st, toString (dictOf t.db).length) | none => bad
+  | "calcroot", [k, v, br] =>
+    match ofHex k, ofHex v, parseHashes br with
+    | some k, some v, some br =>
+      if br.length ≠ 8 * k.length then (st, "exn ValidationError") else (st, toHex (calcRoot keccak (toBits k) v br))
+    | _, _, _ => bad
+  | "proof", [k, v, br] =>
+    match ofHex k, ofHex v, parseHashes br with
+    | some k, some v, some br =>
+      if br.length ≠ 8 * k.length then (st, "exn ValidationError")
+      else ({ st with proofs := st.proofs.push { key := toBits k, value := v, branch := br } }, toString st.proofs.size)
+    | _, _, _ => bad
+  | "pupdate", [i, k, v, ups] =>
+    match i.toNat?, ofHex k, ofHex v, parseHashes ups with
+    | some i, some k, some v, some ups =>
+      match st.proofs[i]? with
+      | none => bad
+      | some p =>
+        if 8 * k.length ≠ p.key.length then (st, "exn ValidationError")
+        else match p.update (toBits k) v ups with
+          | .ok p' => ({ st with proofs := st.proofs.set! i p' }, "ok")
+          | .error _ => (st, "exn ValidationError")
+    | _, _, _, _ => bad
+  | "pshow", [i] =>
+    match i.toNat?.bind (fun i => st.proofs[i]?) with
+    | some p => (st, s!"{toHex p.value};{hashes p.branch};{toHex (p.rootHash keccak)}")
+    | none => bad
+  | _, _ => bad
 
 end PyTrie.SmtDrv
